@@ -86,6 +86,7 @@ pub fn configs(tier: Tier) -> Vec<Box<dyn Config>> {
     let sse2 = super::width() == 16;
     let q = tier == Tier::Quick;
     let mut v = Vec::new();
+    v.push(Box::new(super::widebattery::WideBattery { tier, part: super::widebattery::Part::SetAlgebra }) as Box<dyn Config>);
     for plan in [Plan::Zero, Plan::Tail] {
         v.push(seeded(plan, if q { 1 } else { 2 }, tier));
     }
